@@ -5,9 +5,15 @@ package main
 import (
 	"flag"
 	"fmt"
+	"math/rand"
 	"os"
+	"strings"
+	"sync"
+	"sync/atomic"
+	"time"
 
 	"github.com/lmorg/murex/lang"
+	"github.com/lmorg/murex/utils/verifhook"
 )
 
 func init() { register("jobs-replay", jobsReplay) }
@@ -111,3 +117,163 @@ func jobsReplay(args []string) int {
 	}
 	return 0
 }
+
+// ---------------------------------------------------------------------------
+// V: concurrent random driver with event recording (validated by spec/JobsTrace.tla)
+
+type jobsEvent struct {
+	Ev    string `json:"ev"`
+	P     int    `json:"p"`
+	A     int    `json:"a"`
+	Slots []int  `json:"slots"`
+}
+
+func jobsDrive(args []string) int {
+	fs := flag.NewFlagSet("jobs-drive", flag.ExitOnError)
+	out := fs.String("out", "", "trace ndjson")
+	seed := fs.Int64("seed", 1, "seed")
+	num := fs.Int("n", 100, "traces")
+	fs.Parse(args)
+	w, err := newNDWriter(*out)
+	if err != nil {
+		fmt.Fprintln(os.Stderr, err)
+		return 2
+	}
+	defer w.Close()
+	var mu sync.Mutex
+	var evs []jobsEvent
+	seqOf := map[int64]int{} // process token (its Id) -> number in order of addition
+	next := 0
+	rec := func(e jobsEvent) { mu.Lock(); evs = append(evs, e); mu.Unlock() }
+	tok := func(id int64) int {
+		if id == 0 {
+			return 0
+		}
+		return seqOf[id]
+	}
+	verifhook.Install(&verifhook.Hooks{
+		Gate: func(obj any, point string) {},
+		Emit: func(obj any, ev string, s string, n []int64) {
+			mu.Lock()
+			defer mu.Unlock()
+			switch ev {
+			case "jobs.add":
+				next++
+				seqOf[n[0]] = next
+				evs = append(evs, jobsEvent{Ev: ev, P: next, A: int(n[1]), Slots: []int{}})
+			case "jobs.gc.start", "jobs.lookup.start":
+				evs = append(evs, jobsEvent{Ev: ev, Slots: []int{}})
+			case "jobs.gc":
+				sl := []int{}
+				if s != "" {
+					for _, x := range strings.Split(s, ",") {
+						var v int64
+						fmt.Sscan(x, &v)
+						sl = append(sl, tok(v))
+					}
+				}
+				evs = append(evs, jobsEvent{Ev: ev, Slots: sl})
+			case "jobs.get", "jobs.latest":
+				evs = append(evs, jobsEvent{Ev: ev, A: int(n[0]), P: tok(n[1]), Slots: []int{}})
+			}
+		}})
+	master := rand.New(rand.NewSource(*seed))
+	var token int64
+	for t := 0; t < *num; t++ {
+		mu.Lock()
+		evs = evs[:0]
+		seqOf = map[int64]int{}
+		next = 0
+		mu.Unlock()
+		rec(jobsEvent{Ev: "reset", Slots: []int{}})
+		jobs := lang.NewJobs()
+		var wg sync.WaitGroup
+		stop := make(chan struct{})
+		for a := 0; a < 3; a++ {
+			wg.Add(1)
+			go func(seed int64) {
+				defer wg.Done()
+				rng := rand.New(rand.NewSource(seed))
+				var inner sync.WaitGroup
+				for k := 0; k < 2+rng.Intn(4); k++ {
+					p := new(lang.Process)
+					p.Id = uint32(atomic.AddInt64(&token, 1))
+					jobs.Add(p)
+					d := time.Duration(rng.Intn(300)) * time.Microsecond
+					inner.Add(1)
+					go func() {
+						defer inner.Done()
+						time.Sleep(d)
+						mu.Lock()
+						me := seqOf[int64(p.Id)]
+						evs = append(evs, jobsEvent{Ev: "call.term", P: me, Slots: []int{}})
+						mu.Unlock()
+						p.SetTerminatedState(true)
+						rec(jobsEvent{Ev: "ret.term", P: me, Slots: []int{}})
+						jobs.GarbageCollect() // as deregisterProcess does
+					}()
+					if rng.Intn(2) == 0 {
+						time.Sleep(time.Duration(rng.Intn(200)) * time.Microsecond)
+					}
+				}
+				inner.Wait()
+			}(master.Int63())
+		}
+		wg.Add(1)
+		go func(seed int64) {
+			defer wg.Done()
+			rng := rand.New(rand.NewSource(seed))
+			for {
+				select {
+				case <-stop:
+					return
+				default:
+				}
+				switch rng.Intn(3) {
+				case 0:
+					jobs.Get(1 + rng.Intn(6))
+				case 1:
+					jobs.GetLatest()
+				case 2:
+					time.Sleep(time.Duration(rng.Intn(100)) * time.Microsecond)
+				}
+			}
+		}(master.Int63())
+		// wait for the adders, then stop the reader
+		done := make(chan struct{})
+		go func() { wg.Wait(); close(done) }()
+		time.Sleep(2 * time.Millisecond)
+		for {
+			mu.Lock()
+			n := len(evs)
+			mu.Unlock()
+			time.Sleep(3 * time.Millisecond)
+			mu.Lock()
+			same := len(evs) == n
+			mu.Unlock()
+			_ = same
+			break
+		}
+		// adders finish on their own; the reader needs the stop signal
+		go func() {
+			time.Sleep(5 * time.Millisecond)
+		}()
+		waitAdders(&wg, stop)
+		<-done
+		mu.Lock()
+		for _, e := range evs {
+			w.Write(e)
+		}
+		mu.Unlock()
+	}
+	return 0
+}
+
+// waitAdders closes stop once only the reader goroutine can still be running: adders are
+// bounded, so a generous sleep proportional to their worst case is enough and keeps this simple.
+func waitAdders(wg *sync.WaitGroup, stop chan struct{}) {
+	time.Sleep(8 * time.Millisecond)
+	close(stop)
+}
+
+func init() { register("jobs-drive", jobsDrive) }
